@@ -283,7 +283,8 @@ def moved(sysd, ref):
 NSEG = 3     # checkpoints per run: E_k is the maximum over the states at T/3, 2T/3 and T
 
 
-def fixed_levels(sysd, cfg, dt0, n0, backward, levels=LEVELS, cache=False, ref=None, mk=None, rspec=None, LV=None):
+def fixed_levels(sysd, cfg, dt0, n0, backward, levels=LEVELS, cache=False, ref=None, mk=None, rspec=None, LV=None,
+                 t_offset=0.0):
     """n0 must be a multiple of NSEG.  Returns (Es, refs, tdev): Es[k] = max over the NSEG checkpoints of the scaled
     error at level k (the simulation is synchronized at each checkpoint and continued: taking the maximum over
     three epochs fills the dips that a sign change of the leading error term produces at a single epoch);
@@ -310,7 +311,7 @@ def fixed_levels(sysd, cfg, dt0, n0, backward, levels=LEVELS, cache=False, ref=N
             e, _ = state_error(sim, ref[s], LV=LV)
             E = max(E, e)
             nk = seg * (s + 1) * 2 ** k
-            tdev = max(tdev, abs(sim.t - times[s]) / (abs(times[s]) * nk * EPS))
+            tdev = max(tdev, abs((sim.t - t_offset) - times[s]) / ((abs(times[s]) + abs(t_offset)) * nk * EPS))
         Es.append(E)
         del sim
     return Es, ref, tdev
@@ -1111,11 +1112,123 @@ def run_trace_peri(case, ctx):
 
 
 # ---------------------------------------------------------------------------------------------------------------
+# two legs on one simulation: a few steps with configuration A, then the user switches to configuration B
+
+TWO_LEG_B = ["whfast"] * 8 + ["saba", "saba", "eos", "eos", "leapfrog", "janus", "mercurius", "trace", "ias15fixed"]
+
+
+def whfast_cfg_uniform_coords():
+    lat = S.whfast_lattice()
+    return st.sampled_from(S.WH_COORDS).flatmap(
+        lambda c: st.builds(lambda t, sm: whfast_cfg(t[0], t[1], t[2], t[3], sm),
+                            st.sampled_from([t for t in lat if t[0] == c]), st.sampled_from([0, 1])))
+
+
+@st.composite
+def two_leg_case(draw, tier="quick"):
+    famB = draw(st.sampled_from(TWO_LEG_B))
+    famA = draw(st.sampled_from(FAM_WEIGHT))
+    cfgB = draw(whfast_cfg_uniform_coords() if famB == "whfast" else fam_cfg(famB))
+    cfgA = draw(whfast_cfg_uniform_coords() if famA == "whfast" else fam_cfg(famA))
+    regime = draw(st.sampled_from([r for r in FAM_REGIMES[famB] if r in FAM_REGIMES[famA]] or FAM_REGIMES[famB]))
+    sysd = draw(regime_system(regime, 4))
+    return {"regime": regime, "cfgA": cfgA, "cfgB": cfgB, "system": sysd, "n1": draw(st.integers(1, 6)),
+            "backward": draw(st.sampled_from([False, False, True])), "norb": draw(st.sampled_from([2, 3]))}
+
+
+def switch_to(sim, cfg):
+    """What a user does to continue a synchronized simulation with another integrator configuration: select the
+    integrator and its options, re-select the basic gravity routine (WHFast kernels / SABA correctors / MERCURIUS /
+    TRACE / EOS leave their own routine selected and the library warns about it), and ask integrators that cache
+    coordinates to recompute them (documented flags for safe_mode=0)."""
+    from .. import rb
+    sim.integrator = cfg["integrator"]
+    sim.gravity = "basic"
+    if cfg["family"] == "saba":
+        # SABA uses WHFast's machinery and requires its default options (Jacobi coordinates)
+        sim.ri_whfast.coordinates = "jacobi"
+        sim.ri_whfast.kernel = "default"
+        sim.ri_whfast.corrector = 0
+        sim.ri_whfast.corrector2 = 0
+    for path, val in cfg.get("set", []):
+        rb.setpath(sim, path, val)
+    if "peri_mode" in cfg:
+        set_peri_mode(sim, cfg["peri_mode"])
+    sim.ri_whfast.recalculate_coordinates_this_timestep = 1
+    sim.ri_mercurius.recalculate_coordinates_this_timestep = 1
+    sim.ri_mercurius.recalculate_r_crit_this_timestep = 1
+    sim.ri_janus.recalculate_integer_coordinates_this_timestep = 1
+
+
+def run_two_leg(case, ctx):
+    """Leg 1: n1 steps of P/32 with configuration A, synchronize.  The synchronized state is the initial condition of
+    the reference, so the error of leg 1 does not enter.  Leg 2: switch to configuration B and measure its
+    convergence exactly as in 'order'."""
+    import warnings
+    warnings.simplefilter("ignore")
+    cfgA, cfgB = case["cfgA"], case["cfgB"]
+    regime = case["regime"]
+    sysd = case["system"]
+    backward = case["backward"]
+    sgn = -1.0 if backward else 1.0
+    dtA = snap(sysd["P_min"] / 32.0)
+    what = "%s %s after %d steps of %s %s, %s%s" % (cfgB["family"], short(cfgB), case["n1"], cfgA["family"], short(cfgA),
+                                                    regime, " backward" if backward else "")
+
+    def mk(_sysd, _cfg):
+        sim = setup(sysd, cfgA)
+        sim.dt = sgn * dtA
+        try:
+            sim.steps(case["n1"])
+            sim.synchronize()
+            switch_to(sim, cfgB)
+        except RuntimeError as ex:
+            raise Violation("%s: the library reports an error on valid input: %s" % (what, ex))
+        return sim
+
+    sim = mk(None, None)
+    t1 = sim.t
+    mid = {"G": sysd["G"], "P_min": sysd["P_min"], "P_max": sysd["P_max"],
+           "particles": [{"m": p.m, "x": p.x, "y": p.y, "z": p.z, "vx": p.vx, "vy": p.vy, "vz": p.vz}
+                         for p in [sim.particles[i] for i in range(sim.N)]]}
+    del sim
+    for q, q0 in zip(mid["particles"], sysd["particles"]):
+        # (barycentric WHFast recomputes the stellar mass as total minus planets: 1 ulp; the reference uses the
+        # masses as read back)
+        if abs(q["m"] - q0["m"]) > 1e-14 * abs(q0["m"]) or not all(math.isfinite(q[k]) for k in ("x", "y", "z", "vx", "vy", "vz")):
+            raise Violation("%s: leg 1 changed a mass or produced a non-finite coordinate" % what)
+    p = asserted_order(cfgB, regime)
+    dt0 = snap(sysd["P_min"] / dt0_div(cfgB, regime))
+    n0 = n0_for(case["norb"], sysd["P_min"], dt0)
+    Es, refs, tdev = fixed_levels(mid, cfgB, dt0, n0, backward, mk=mk, rspec=ref_spec(mid), t_offset=t1)
+    floors = [floor_for(mid, cfgB, n0 * 2 ** k) for k in range(len(Es))]
+    anchors = check_rate(Es, floors, p, ctx, what, {"dt0": dt0, "n0": n0, "regime": regime, "t1": t1})
+    if tdev > 4.0:
+        raise Violation("%s: sim.t deviates from t1 + n*dt by %.1f x n*eps*|t|" % (what, tdev))
+    ctx.cls("B:" + cfgB["family"])
+    ctx.cls("A:" + cfgA["family"])
+    if cfgB["family"] == "whfast":
+        ctx.cls("B:coord:" + cfg_get(cfgB, "ri_whfast.coordinates"))
+    if cfgA["family"] == "whfast":
+        ctx.cls("A:coord:" + cfg_get(cfgA, "ri_whfast.coordinates"))
+    if backward:
+        ctx.cls("backward")
+    if anchors and moved(mid, refs[-1]) > 1e-3:
+        ctx.nontrivial()
+    elif max(Es) < floors[0]:
+        ctx.cls("below_floor")
+    else:
+        ctx.cls("unmeasurable")
+
+
+# ---------------------------------------------------------------------------------------------------------------
 
 def subs(tier):
     return [
         Sub("order", run_order, strategy=order_case(tier), quick=720, thorough=24000, shards_quick=16, shards_thorough=16),
         Sub("lattice", run_order, cases=lattice_cases, quick=0, thorough=0, shards_quick=16, shards_thorough=16),
+        Sub("two_leg", run_two_leg, strategy=two_leg_case(tier), quick=144, thorough=6400, shards_quick=8,
+            shards_thorough=16),
         Sub("adaptive", run_adaptive, strategy=adaptive_case(tier), quick=192, thorough=6400, shards_quick=8, shards_thorough=16),
         Sub("ode", run_ode, strategy=ode_case(tier), quick=48, thorough=1600, shards_quick=8, shards_thorough=16),
         Sub("sei", run_sei, strategy=sei_case(tier), quick=160, thorough=3200, shards_quick=4, shards_thorough=8),
